@@ -543,6 +543,7 @@ func twPlan(prop, kind, tier string) []fw.Unit {
 			us = append(us, fw.Unit{Check: prop, Kind: "enum", Tier: tier, Spec: fw.Spec(enumSpec{Cfg: i, Shard: s, Shards: shards})})
 		}
 	}
+	us = append(us, fw.Unit{Check: prop, Kind: "burst", Tier: tier, Spec: fw.Spec(enumSpec{})})
 	bound := 2 // (raised from 1: a lock-upgrade race in Trigger needs the clock to fire a due timer and one preemption)
 	if tier == "thorough" {
 		bound = 3
@@ -551,6 +552,51 @@ func twPlan(prop, kind, tier string) []fw.Unit {
 		us = append(us, fw.Unit{Check: prop, Kind: "sched", Tier: tier, Spec: fw.Spec(schedSpec{Scn: i, Name: sc.Name, Items: []explore.Item{{}}, Bound: bound, Budget: 20000})})
 	}
 	return us
+}
+
+// twBurst: 160 and 320 in-order events in one burst (more watermark advances than the watermark channel holds while
+// the trigger goroutine has not run yet), then the sentinel and silence: every interval is still delivered, with
+// exactly its rows. At most 40 intervals, below the window output buffer.
+func twBurst(prop, kind string) fw.Result {
+	a := newAcc(prop, "det-"+kind+"-burst")
+	for _, n := range []int{160, 320} {
+		for _, ooo := range []int64{0, 1000} {
+			for _, eager := range []bool{false, true} {
+				c := twCfg{Kind: kind, SizeMs: 2000, OOOMs: ooo, Keys: 1, MaxL: n, Eager: eager}
+				if kind == "sliding" {
+					c.Slide = 1000
+				}
+				step := int64(32000 / n)
+				var evs []ref.Event
+				for i := 0; i < n; i++ {
+					evs = append(evs, ref.Event{ID: i + 1, Key: "a", TS: 10000 + int64(i)*step, V: 1})
+				}
+				evs = append(evs, ref.Event{ID: 99999, Key: "zz", TS: 500000, V: 0})
+				sql := twSQL(c)
+				r := detExec(sql, twOpts(c), twFeed(c, evs))
+				a.r.Evaluations++
+				a.r.States++
+				a.r.Nontrivial++
+				a.r.Transitions += int64(r.Steps)
+				cs := map[string]any{"cfg": c, "sql": sql, "events": fmt.Sprintf("%d in-order events %d ms apart from 10000, then a sentinel", n, step)}
+				if r.ExecErr != "" || r.Status != sched.StatusOK {
+					a.fail(prop+"|"+kind+"|burst|exec", r.ExecErr+" "+r.Status.String()+" "+firstLine(r.Panic), cs, nil, nil)
+					continue
+				}
+				ds, perr := twDeliveries(c, r.Batches)
+				if perr != "" {
+					a.fail(prop+"|"+kind+"|burst|result-shape", perr, cs, nil, nil)
+					continue
+				}
+				a.outcome(fmt.Sprint(len(ds)))
+				if k, what := twCompare(c, evs, ds); k != "" {
+					a.fail(prop+"|"+kind+"|burst|"+k, what, cs, nil, len(ds))
+				}
+			}
+		}
+	}
+	a.sample(map[string]any{"burst_lengths": []int{160, 320}, "span_ms": 32000})
+	return a.result()
 }
 
 func twDescribe(kind string) fw.Description {
@@ -588,6 +634,9 @@ func (c01) Run(u fw.Unit) fw.Result {
 	if u.Kind == "sched" {
 		return runSched("C01", u, twScenarios("C01", "tumbling", u.Tier))
 	}
+	if u.Kind == "burst" {
+		return twBurst("C01", "tumbling")
+	}
 	return twRunEnum("C01", u, twConfigs("tumbling", u.Tier))
 }
 func (c01) Describe(tier string) fw.Description { return twDescribe("Tumbling") }
@@ -602,6 +651,9 @@ func (c08) Plan(tier string) []fw.Unit { return twPlan("C08", "sliding", tier) }
 func (c08) Run(u fw.Unit) fw.Result {
 	if u.Kind == "sched" {
 		return runSched("C08", u, twScenarios("C08", "sliding", u.Tier))
+	}
+	if u.Kind == "burst" {
+		return twBurst("C08", "sliding")
 	}
 	return twRunEnum("C08", u, twConfigs("sliding", u.Tier))
 }
